@@ -97,6 +97,8 @@ func msgsExec(mode msgsMode) func(t *testing.T, ssc schedrun.Scenario, o vsched.
 		// the client waits for a matching funding / settlement proposal)
 		// "~gapacc": as "~gap", and the victim's user handlers ACCEPT (C12 otherwise rejects)
 		gap := map[string]time.Duration{"seq": 60 * time.Second, "gap": 11 * time.Second, "gapacc": 11 * time.Second}[variant]
+		// "~acc": a single crafted message, the victim's user handlers ACCEPT
+		accepting := variant == "gapacc" || variant == "acc"
 		// "~edge": hub points where B's honest proposal waits at the hub: M's proposal is delivered 0.5 ms
 		// before the hub's 10 s wait for it ends, and every publication of the hub takes 1 ms (the wait ends
 		// while the two proposals are being matched). "~edge0": delivered exactly when the wait ends, no
@@ -129,7 +131,7 @@ func msgsExec(mode msgsMode) func(t *testing.T, ssc schedrun.Scenario, o vsched.
 			V := sc.V
 			vsched.StartExploration()
 			obs.Stage = "adversarial"
-			if mode.Reject && variant != "gapacc" {
+			if mode.Reject && !accepting {
 				V.OnProposal, V.OnUpdate = rejectProposals, rejectUpdates
 			} else if !strings.HasPrefix(pt, "await-subfund") {
 				V.OnProposal, V.OnUpdate = nil, nil
@@ -282,6 +284,16 @@ func msgsExec(mode msgsMode) func(t *testing.T, ssc schedrun.Scenario, o vsched.
 				for k, env := range envs {
 					if err := w.Bus.Inject(env, protos[k]); err != nil {
 						panic("harness: inject: " + err.Error())
+					}
+				}
+				if c.Follow != nil {
+					vsched.Sleep(100 * time.Millisecond)
+					for _, env := range c.Follow(sc) {
+						if dec, proto, _ := mPrepare(env, false); dec != nil {
+							if err := w.Bus.Inject(env, proto); err != nil {
+								panic("harness: inject: " + err.Error())
+							}
+						}
 					}
 				}
 			}
@@ -501,7 +513,11 @@ func c07acceptable(v *mChanView, up *client.ChannelUpdateMsg, pend []pendingAuto
 	if ordinary == "" {
 		return ""
 	}
-	// automatically accepted funding / settlement
+	// automatically accepted funding / settlement: does exactly that and nothing else - in particular it
+	// does not make the parent final (only the user's handler can consent to that)
+	if to.IsFinal {
+		return ordinary + "; and an automatically accepted update must not set the parent final"
+	}
 	why := ordinary
 	subWhy := "a sub-allocation with the awaited id is added, but it is not exactly that channel's (amount = sum of its balances, index map as agreed)"
 	balWhy := "the awaited sub-allocation is added / removed, but the balances do not change by exactly each participant's balance in that channel"
